@@ -58,6 +58,11 @@ def programs():
     out.append(("from-import star-free form binds the imported name, not the module", "from os import path\nos -l\n", 2, False))
     out.append(("walrus inside a call argument", "print(X := 1)\nX -l\n", 2, True))
     out.append(("walrus inside a condition", "if (X := 1):\n    pass\nX -l\n", 3, True))
+    out.append(("multi-item with: `as` on the second item", "with open('/dev/null'), open('/dev/null') as X:\n    X -l\n", 2, True))
+    out.append(("multi-item with: `as` on the first item", "with open('/dev/null') as X, open('/dev/null'):\n    X -l\n", 2, True))
+    out.append(("multi-item with: both items", "with open('/dev/null') as Y, open('/dev/null') as X:\n    X -l\n", 2, True))
+    out.append(("async-free nested with inside def", "def f():\n    with open('/dev/null'), open('/dev/null') as X:\n        X -l\n", 3, True))
+    out.append(("for with tuple target", "for Y, X in []:\n    X -l\n", 2, True))
     out.append(("session name", "S -l\n", 1, True))
     out.append(("unbound", "X -l\n", 1, False))
     return out
